@@ -91,7 +91,7 @@ theorem hoistUp_spec (name : Name) (mref orig : Nat) (sl : Bool) :
         · cases h; exact ⟨hl1, AncRel.refl _ _⟩
         · split at h
           · cases h
-            refine ⟨by simp [hl1], ⟨rfl, ?_⟩, AncRel.refl _ _⟩
+            refine ⟨by simp only [length_setLink]; split <;> simp [hl1], ⟨rfl, ?_⟩, AncRel.refl _ _⟩
             intro x hx
             rw [insert_same hex] at hx
             exact Or.inl hx
@@ -102,7 +102,8 @@ theorem hoistUp_spec (name : Name) (mref orig : Nat) (sl : Bool) :
                 · split at h <;> cases h <;> exact ⟨hl1, AncRel.refl _ _⟩
               · cases h; exact ⟨hl1, AncRel.refl _ _⟩
             · exact hcont { s with members := insert name mref s.members }
-                { st1 with syms := setLink st1.syms ex (some mref) } rfl (fun x hx => decls_insert hx) (by simp [hl1]) h
+                { st1 with syms := setLink (if ek = SK.arguments then pin st1.syms mref else st1.syms) ex (some mref) } rfl
+                (fun x hx => decls_insert hx) (by simp only [length_setLink]; split <;> simp [hl1]) h
       · cases h
 
 /-- what hoisting the members of one scope may change: the scope gains fresh generated symbols, its ancestors
@@ -158,7 +159,7 @@ theorem hoistMember_spec {anc anc' : List Frame} {f f' : Frame} {st st' : HSt} {
             · next anc1 st1 hu =>
               cases h
               obtain ⟨hl, hr⟩ := hoistUp_spec _ _ _ _ _ _ _ _ _ hu
-              simp only [List.length_append, List.length_singleton] at hl
+              simp only [length_pinIfWith, List.length_append, List.length_singleton] at hl
               refine ⟨by omega, rfl, rfl, rfl, ?_, AncRel.mono ?_ hr⟩
               · intro s hs
                 simp only [List.mem_append, List.mem_singleton] at hs
@@ -171,6 +172,7 @@ theorem hoistMember_spec {anc anc' : List Frame} {f f' : Frame} {st st' : HSt} {
           · next anc1 st1 hu =>
             cases h
             obtain ⟨hl, hr⟩ := hoistUp_spec _ _ _ _ _ _ _ _ _ hu
+            simp only [length_pinIfWith] at hl
             refine ⟨by omega, rfl, rfl, rfl, fun _ h => Or.inl h, AncRel.mono ?_ hr⟩
             intro s hs; subst hs; exact Or.inl hm
   · cases h
